@@ -131,13 +131,36 @@ def kernel_entry(modname, m, f):
   return (f"{modname}.{f}", body, scal)
 
 
+def _stamp():
+  """sha256 over everything the generated files are a function of: /repo's non-test sources and the translator itself"""
+  import hashlib, glob
+  h = hashlib.sha256()
+  files = sorted(f for f in glob.glob(os.path.join(tiera.REPO, "mujoco_warp", "_src", "*.py")) if not f.endswith("_test.py"))
+  files += sorted(glob.glob(os.path.join(os.path.dirname(os.path.abspath(__file__)), "*.py")))
+  for f in files:
+    h.update(f.encode() + b"\0")
+    h.update(open(f, "rb").read())
+  return h.hexdigest()
+
+
 def run(targets=None, verbose=False):
+  # regeneration is a pure function of the stamped inputs: identical inputs -> keep the files (and lake's build) as they are
+  stamp = _stamp() if targets is None else None
+  sp, rp = os.path.join(GEN, ".stamp"), os.path.join(GEN, "report.json")
+  need = ["Host.lean", "Graph.lean", "Dispatch.lean", "aliases.json", "graph.json", "host.json"]
+  if stamp and os.path.exists(sp) and open(sp).read() == stamp and os.path.exists(rp) and all(os.path.exists(os.path.join(GEN, n)) for n in need):
+    rep = json.load(open(rp))
+    rep["changed_files"] = []
+    rep["unchanged_inputs"] = True
+    return rep
   targets = targets or TARGETS
   aliases = {}
   try:
     from . import graph
     graph.run()
     aliases = json.load(open(os.path.join(GEN, "aliases.json")))
+    from . import hostgraph
+    hostgraph.run()   # Gen/Host.lean: ordered host events of step/forward/reset_data/inverse (C12, C32, C37, C07)
   except Exception as e:  # the alias table is an input of the kernel translation
     raise
   reg = tiera.Registry(aliases)
@@ -243,6 +266,8 @@ def run(targets=None, verbose=False):
         sigs[f"{modname}.{f}"]["kernel"] = m.kernel_scalars[f]
   report["signatures"] = sigs
   write_if_changed(os.path.join(GEN, "report.json"), json.dumps(report, indent=1, sort_keys=True))
+  if stamp:
+    open(sp, "w").write(stamp)
   return report
 
 
